@@ -114,11 +114,21 @@ Print Assumptions C15_reachable_init.
 (* the exception: a DISCONNECT that itself violates the protocol (session expiry on a zero-expiry session)
    leaves the flag alone; the error then takes the Stop path with reason 0x82 (C15_sites_stop) *)
 Theorem C15_none_after_peers_except_violation : forall (reason se : N) (s : st),
-  v5 (c_ s) = true -> 0 < se ->
+  v5 (c_ s) = true -> 0 < se -> (is_client s = true \/ zse (c_ s) = true) ->
   let r := proto_body (KDisconnect reason se) s in
   snd r = ODone (RErr (EProto 130)) /\ dsent (p_ (fst r)) = dsent (p_ s) /\ wire (i_ (fst r)) = wire (i_ s).
 Proof. exact peer_disconnect_v5_violation. Qed.
 Print Assumptions C15_none_after_peers_except_violation.
+
+(* ... and it is an exception for those sessions only: a server whose CONNECT asked for a non-zero session expiry
+   ([zse] = false) accepts a DISCONNECT that carries a Session Expiry Interval like any other DISCONNECT of the
+   peer -- it writes nothing in answer *)
+Theorem C15_peer_disconnect_with_expiry_accepted : forall (reason se : N) (s : st),
+  v5 (c_ s) = true -> is_client s = false -> zse (c_ s) = false ->
+  let r := proto_body (KDisconnect reason se) s in
+  snd r = OCtl (4, 0) /\ dsent (p_ (fst r)) = true /\ wire (i_ (fst r)) = wire (i_ s).
+Proof. exact peer_disconnect_v5_expiry_allowed. Qed.
+Print Assumptions C15_peer_disconnect_with_expiry_accepted.
 
 (* ---- nothing after its own: once the io is closed nothing at all is written (layer 2) ... *)
 Theorem C15_nothing_after_own : forall (s : st) (a b : list (list N)),
